@@ -33,30 +33,32 @@ theorem identity_predicates_agree_mincode {c : Ext} {p : E} (h : ERepr c p) (hX 
 
 /-- every translated `Hash` impl (`Element`, `AffinePoint`; regenerated on every run) feeds the hasher exactly the encoder's
 output -/
-theorem hash_input_forms {α β : Type} (enc : α → β) (e : α) :
-    ∀ f ∈ (Gen.ConvForms.hashForms : List (String × ((α → β) → α → β))), f.2 enc e = enc e :=
-  fun f hf => Formulas.ConvForms.hashForms_correct f hf enc e
+theorem hash_input_forms {α β : Type} (enc raw : α → β) (e : α) :
+    ∀ f ∈ (Gen.ConvForms.hashForms : List (String × ((α → β) → (α → β) → α → β))), f.2 enc raw e = enc e :=
+  fun f hf => Formulas.ConvForms.hashForms_correct f hf enc raw e
 
 /-- **equal elements hash equally, and only they do (up to collisions of the hasher)**: for any two representations of
 even points, and any two of the translated `Hash` impls (so also an `Element` against an `AffinePoint`), the hasher inputs
 coincide exactly when the library's equality holds -/
 theorem hash_input_eq_iff (h : SRContract sr) {c c' : Ext} {p p' : E} (hr : ERepr c p) (hr' : ERepr c' p')
     (he : Point.IsEven p) (he' : Point.IsEven p') :
-    ∀ f ∈ (Gen.ConvForms.hashForms : List (String × ((Ext → Option ℕ) → Ext → Option ℕ))),
-    ∀ g ∈ (Gen.ConvForms.hashForms : List (String × ((Ext → Option ℕ) → Ext → Option ℕ))),
-      (f.2 (Ext.encodeField sr) c = g.2 (Ext.encodeField sr) c' ↔ Ext.eq c c' = true) := by
-  intro f hf g hg
-  rw [hash_input_forms _ _ f hf, hash_input_forms _ _ g hg]
+    ∀ (raw raw' : Ext → Option ℕ),
+    ∀ f ∈ (Gen.ConvForms.hashForms : List (String × ((Ext → Option ℕ) → (Ext → Option ℕ) → Ext → Option ℕ))),
+    ∀ g ∈ (Gen.ConvForms.hashForms : List (String × ((Ext → Option ℕ) → (Ext → Option ℕ) → Ext → Option ℕ))),
+      (f.2 (Ext.encodeField sr) raw c = g.2 (Ext.encodeField sr) raw' c' ↔ Ext.eq c c' = true) := by
+  intro raw raw' f hf g hg
+  rw [hash_input_forms _ _ _ f hf, hash_input_forms _ _ _ g hg]
   exact (C03.eq_iff_encode_eq h hr hr' he he').symm
 
 /-- the byte form of the same statement, in the direction `Hash` must satisfy: equal elements, equal bytes into the hasher -/
 theorem hash_bytes_respect_eq (h : SRContract sr) {c c' : Ext} {p p' : E} (hr : ERepr c p) (hr' : ERepr c' p')
     (he : Point.IsEven p) (he' : Point.IsEven p') (heq : Ext.eq c c' = true) :
-    ∀ f ∈ (Gen.ConvForms.hashForms : List (String × ((Ext → Option (List ℕ)) → Ext → Option (List ℕ)))),
-    ∀ g ∈ (Gen.ConvForms.hashForms : List (String × ((Ext → Option (List ℕ)) → Ext → Option (List ℕ)))),
-      f.2 (Ext.encode sr) c = g.2 (Ext.encode sr) c' := by
-  intro f hf g hg
-  rw [hash_input_forms _ _ f hf, hash_input_forms _ _ g hg]
+    ∀ (raw raw' : Ext → Option (List ℕ)),
+    ∀ f ∈ (Gen.ConvForms.hashForms : List (String × ((Ext → Option (List ℕ)) → (Ext → Option (List ℕ)) → Ext → Option (List ℕ)))),
+    ∀ g ∈ (Gen.ConvForms.hashForms : List (String × ((Ext → Option (List ℕ)) → (Ext → Option (List ℕ)) → Ext → Option (List ℕ)))),
+      f.2 (Ext.encode sr) raw c = g.2 (Ext.encode sr) raw' c' := by
+  intro raw raw' f hf g hg
+  rw [hash_input_forms _ _ _ f hf, hash_input_forms _ _ _ g hg]
   unfold Ext.encode
   rw [(C03.eq_iff_encode_eq h hr hr' he he').mp heq]
 
